@@ -297,6 +297,32 @@ impl<'w> Assets<'w> {
         }
     }
 
+    /// The ECDSA sighash of the input under test (model side: script code chosen by the harness).
+    pub fn ecdsa_digest(&self) -> Option<[u8; 32]> {
+        let cache = SighashCache::new(&self.spend.tx);
+        match &self.ecdsa {
+            EcdsaMode::None => None,
+            EcdsaMode::Legacy(sc) => cache.legacy_signature_hash(self.spend.idx, sc, self.ecdsa_hashtype.to_u32()).ok().map(|h| h.to_byte_array()),
+            EcdsaMode::Segwit(sc) => {
+                let mut cache = cache;
+                cache
+                    .p2wsh_signature_hash(self.spend.idx, sc, self.spend.prevouts[self.spend.idx].value, self.ecdsa_hashtype)
+                    .ok()
+                    .map(|h| h.to_byte_array())
+            }
+        }
+    }
+
+    /// The taproot sighash of the input under test (key path for `None`).
+    pub fn schnorr_digest(&self, leaf: Option<TapLeafHash>) -> Option<[u8; 32]> {
+        let mut cache = SighashCache::new(&self.spend.tx);
+        let prevouts = Prevouts::All(&self.spend.prevouts);
+        match leaf {
+            Some(lh) => cache.taproot_script_spend_signature_hash(self.spend.idx, &prevouts, lh, self.tap_hashtype).ok().map(|h| h.to_byte_array()),
+            None => cache.taproot_key_spend_signature_hash(self.spend.idx, &prevouts, self.tap_hashtype).ok().map(|h| h.to_byte_array()),
+        }
+    }
+
     pub fn ecdsa_sig(&self, pk: &bitcoin::PublicKey) -> Option<bitcoin::ecdsa::Signature> {
         if !self.can_sign(&pk.inner) {
             return None;
